@@ -146,7 +146,7 @@ claimed["C06"] = dict(
         "in the closure of the three Undo entries a caller never drops the updated list a helper returns while it goes on using the list it passed in (each undo step sees what the "
         "previous one left); every undone addition leaves the leaf index; a node moved back is re-inserted on every path that deletes it; the undone block's targets are used in "
         "the layout of the forest before the block and hashes are paired with positions of one order class; each forest's Undo runs its undo-one-addition step - which decrements "
-        "the leaf count on every success path - on every iteration of a loop bounded by the block's number of additions.",
+        "the leaf count on every success path - on every iteration of a loop bounded by the block's number of additions; a proof-hash list the undo allocates itself is filled before the hashing core sees it.",
    ref="DESIGN.md 5/C06, engines E2+E7",
    technique="static dataflow (dropped-result / later-use analysis), must-pass-through and dominance rules on go/ssa, order-class and coordinate-layout abstract interpretation (custom analyzer)")
 
